@@ -195,11 +195,18 @@ func vRingSequence(res *vlib.Result, root *vlib.Rand, capacity, seq int) {
 		}
 	}
 
+	recurring := r.Bool()
 	for op := 0; op < nOps && !bad; op++ {
 		if r.Chance(3, 5) {
 			k := pick()
 			id := ids[k]
 			var a net.Addr = ClientMapAddr(fmt.Sprintf("192.0.2.%d:%d", k%250, op+1)) // unique per Set (port = op number)
+			if recurring {
+				// what real carriers present: the same client address again and again (a
+				// session's next carrier comes from the same client), or two alternating
+				a = ClientMapAddr(fmt.Sprintf("192.0.2.%d:%d", k%250, 1+r.Intn(2)))
+				res.Obs("ring_sets_with_a_recurring_address", 1)
+			}
 			if r.Chance(1, 50) {
 				a = ClientMapAddr("") // what the sanitiser gives for an absent client_ip
 			}
